@@ -48,8 +48,15 @@ func paddedNamesWitness(r *hx.Result, cfg hx.Config) {
 		{cmd: []string{"FSET", "k", "plain", " lon", "8", "speed", "2"}},
 		{cmd: []string{"FSET", "k", "plain", " Z ", "9"}},        // not reserved: stored as Z
 		{cmd: []string{"FSET", "k", "plain", "  heading ", "10"}}, // stored as heading
+		// names are case sensitive: every other spelling of a reserved name is an ordinary name, through
+		// both commands that create fields
+		{cmd: []string{"FSET", "k", "plain", "Lat", "7.25", "LON", "14.5"}},
+		{cmd: []string{"FSET", "k", "plain", "lAT", "1", " LAT ", "2", "Lon", "3", "lOn\t", "4"}},
+		{cmd: []string{"SET", "k", "u1", "FIELD", "Z", "1", "FIELD", "LAT", "2", "FIELD", "Lon", "3", "POINT", "1", "2"}},
+		{cmd: []string{"SET", "k", "u2", "FIELD", " LON ", "1", "POINT", "1", "2"}},
+		{cmd: []string{"FSET", "k", "u1", "XX", "z", "5"}}, // refused
 	}
-	var acceptedReserved []string
+	var acceptedReserved, acceptedAll []string
 	for i := range ws {
 		v := in.c.MustDo(ws[i].cmd...)
 		ws[i].reply = v.String()
@@ -60,8 +67,13 @@ func paddedNamesWitness(r *hx.Result, cfg hx.Config) {
 			acceptedReserved = append(acceptedReserved, strings.Join(qcmd(w.cmd), " "))
 		}
 	}
+	for _, w := range ws {
+		if w.accepted {
+			acceptedAll = append(acceptedAll, strings.Join(qcmd(w.cmd), " "))
+		}
+	}
 	before := dumpFull(in.c)
-	cs := map[string]interface{}{"scenario": "padded-reserved-field-names", "accepted_with_a_reserved_stored_name": acceptedReserved}
+	cs := map[string]interface{}{"scenario": "padded-reserved-field-names", "accepted_with_a_reserved_stored_name": acceptedReserved, "accepted": acceptedAll}
 	if _, e := in.shrinkWith("", nil); e != "" {
 		r.Fail(hx.Failure{Kind: "oracle", Signature: "shrink-did-not-finish", What: "AOFSHRINK did not finish: " + e, Case: cs})
 		return
@@ -73,7 +85,7 @@ func paddedNamesWitness(r *hx.Result, cfg hx.Config) {
 	if err != nil {
 		in = &inst{s: in.s, dir: dir}
 		r.Fail(hx.Failure{Kind: "oracle", Signature: "shrink-padded-reserved-field-does-not-load",
-			What: "accepted: " + strings.Join(acceptedReserved, "; ") + "; AOFSHRINK; restart: the server does not start on the rewritten log: " + lastLines(err.Error(), 200), Case: cs})
+			What: "accepted: " + strings.Join(acceptedAll, "; ") + "; AOFSHRINK; restart: the server does not start on the rewritten log: " + lastLines(err.Error(), 120), Case: cs})
 		return
 	}
 	in = in2
@@ -97,11 +109,14 @@ func paddedNamesSchedule() schedule {
 		{op: "fset", a: "a", b: "i0", fs: []fu{{" lon", fvp(3)}, {"a", fvp(4)}}},
 		{op: "fset", a: "a", b: "i0", fs: []fu{{" a ", fvp(5)}}},
 		{op: "set", a: "b", b: "i0", v: "w"},
+		{op: "fset", a: "b", b: "i0", fs: []fu{{"Lat", fvp(0)}, {"LON", fvp(1)}}},
+		{op: "set", a: "b", b: "i1", v: "w", fs: []fu{{"Z", fvp(2)}, {" lAT ", fvp(3)}}},
 	}
 	sc.Before = map[int][]mcmd{
 		-1: {{op: "fset", a: "a", b: "i1", fs: []fu{{" n0 ", fvp(6)}}}, {op: "fset", a: "b", b: "i0", fs: []fu{{"z ", fvp(1)}}}},
 		1:  {{op: "set", a: "a", b: "i2", v: "x", fs: []fu{{"  speed", fvp(7)}}}, {op: "set", a: "a", b: "i3", v: "x", fs: []fu{{"lon\r", fvp(7)}}}},
-		slotFinal: {{op: "fset", a: "a", b: "i0", fs: []fu{{"Zeta ", nil}, {" speed", fvp(2)}}}},
+		2:         {{op: "fset", a: "b", b: "i1", fs: []fu{{"lon", fvp(4)}}}, {op: "fset", a: "b", b: "i1", fs: []fu{{"Lon", fvp(4)}}}},
+		slotFinal: {{op: "fset", a: "a", b: "i0", fs: []fu{{"Zeta ", nil}, {" speed", fvp(2)}}}, {op: "set", a: "b", b: "i2", v: "w", fs: []fu{{"LAT", fvp(5)}}}},
 	}
 	return sc
 }
